@@ -343,7 +343,7 @@ func ruleUseAfterWipe(c *report.Ctx) {
 				if cc.StaticCallee() == zeroBytes {
 					return false
 				}
-				if cal := cc.StaticCallee(); cal != nil && cal.Name() == "Zero" {
+				if cal := cc.StaticCallee(); cal != nil && nm(cal) == "Zero" {
 					return false
 				}
 				if cc.IsInvoke() && cc.Method.Name() == "Zero" {
